@@ -124,6 +124,13 @@ func zooValues() []valSpec {
 		{Name: "str-long-coef-tiny-exp", Data: "92233720368547758080E-999999999999999999"},
 		{Name: "str-long-coef-huge-exp", Data: "12345678901234567890123e99999999"},
 		{Name: "neg-long-coef-huge-exp", Expr: "(-92233720368547758080e999999999)"},
+		// exponents at the edge of 64-bit integers (beyond what the decimal library computes with)
+		{Name: "exp-int64-edge", Expr: "1e9223372036854775807"},
+		{Name: "neg-exp-int64-edge", Expr: "1e-9223372036854775807"},
+		{Name: "exp-half-int64", Expr: "1e4611686018427387904"},
+		{Name: "str-neg-exp-int64-edge", Data: "1e-9223372036854775807"},
+		{Name: "exp-library-edge", Expr: "1e999999999999999990"},
+		{Name: "neg-exp-library-edge", Expr: "7e-999999999999999990"},
 	}
 	for i := range vals {
 		if vals[i].Expr == "" {
